@@ -75,7 +75,7 @@ type sess struct {
 	subs     []chan error
 	errs     []*tokErr
 	steps    []Step
-	unstable bool // a quiescence wait timed out: the run says nothing
+	unstable bool   // a quiescence wait timed out: the run says nothing
 	dispID   string // goroutine id of this queue's dispatcher
 	onStep   func(Step)
 	onIntent func(Stim)
